@@ -81,7 +81,8 @@ def first_counterexample(node_text, env):
             if isinstance(n, ast.Name) and n.id not in names:
                 names.append(n.id)
     tup = ast.Tuple(elts=[ast.Tuple(elts=[ast.Name(id=n, ctx=ast.Load()) for n in names], ctx=ast.Load()), gen.elt], ctx=ast.Load())
-    lc = ast.Expression(body=ast.ListComp(elt=tup, generators=gen.generators))
+    # a generator, consumed lazily: all() stops at the first falsy element and never evaluates the later ones
+    lc = ast.Expression(body=ast.GeneratorExp(elt=tup, generators=gen.generators))
     ast.fix_missing_locations(lc)
     rows = eval(compile(lc, "<all>", "eval"), dict(env))
     for vals, elt in rows:
@@ -379,7 +380,7 @@ def run(tier, t0):
              "re-computed that Python skipped. "
              "non-trivial = every falsy (condition, valuation)".format(
                  len(set(c[1] for c in conds)), ", full products of <=2-slot productions, depth-3 chains" if level >= 3 else ""),
-        assumptions=["dict displays with **, inline lambdas, await, yield and starred displays are outside the alphabet",
+        assumptions=["inline lambdas (documented as unsupported), await and yield are outside the alphabet",
                      "values: small ints, lists, strs, dicts, one object, four objects with unusual __eq__; raising __repr__ is C11's subject"],
         bounds={"conditions": len(conds), "level": level},
     )
